@@ -123,6 +123,14 @@ add("C13", "univ", "exploration",
     "go/types is the reference; blank-named entries and init are ignored, interfaces skipped for MethodsOf.",
     "DESIGN.md section 3, C13")
 
+add("C12", "univ", "exploration",
+    "property-based testing (rapid): generated source layouts with known comment placement compared with Doc/Comment after types.Load; ExtractCommentTags against a reference splitter; native go fuzz target in thorough",
+    "Source files are generated from a layout description that records, per declared name, which doc lines / detached comment / trailing comment the harness wrote; after "
+    "types.Load, Doc(pos) must return exactly those doc lines (tags split off by the reference splitter) and Comment(pos) exactly the trailing comment, for types, struct "
+    "fields (multi-name too), consts and vars, grouped and ungrouped. ExtractCommentTags is compared with a splitter written from the statement on arbitrary line lists and marker sets.",
+    "Trusts go/types positions and the harness's layout renderer; comment lines are non-empty and blank-trimmed; function-local declarations are not covered.",
+    "DESIGN.md section 3, C12")
+
 ALL = ["C%02d" % i for i in range(1, 21)]
 
 def main():
